@@ -48,6 +48,29 @@ def variants(P, seed):
     return out
 
 
+def gen(rng, **kw):
+    """The shared generator; in a third of the programs with an annotated disjunction every head of it is queried (so
+    that all members of the disjunction are part of the ground program and of its mutual-exclusion constraint, which
+    is what weight / evidence propagation over the constraint looks at), and half of those disjunctions are made to sum
+    to exactly 1 (no "none of the heads" member)."""
+    P = spine.gen_program(rng, **kw)
+    ads = [i for i, st in enumerate(P["stmts"]) if st[0] == "ad"]
+    if ads and rng.random() < 0.35:
+        i = rng.choice(ads)
+        st = P["stmts"][i]
+        heads = list(st[1])
+        if rng.random() < 0.5 and len(heads) >= 2:
+            rest = sum(p for p, h in heads[:-1])
+            if rest < 1:
+                heads[-1] = (1 - rest, heads[-1][1])
+                P["stmts"][i] = ("ad", heads, st[2])
+        for p, h in heads:
+            q = (h[0], tuple("_" if x in spine.VARSET else x for x in h[1]))
+            if q not in P["queries"]:
+                P["queries"].append(q)
+    return P
+
+
 def run(ctx):
     # evidence propagation: Lean model of LogicFormula.propagate with soundness / termination theorems for every
     # processing order, exact correspondence with the real method (incl. the real pop order) and a truth-table oracle
@@ -57,5 +80,5 @@ def run(ctx):
     ctx.rule = ("generated programs x sampled option vectors {propagate_evidence, propagate_weights, label_all, "
                 "avoid_name_clash, keep_order, keep_all, keep_duplicates, hide_builtins} x {default, prob, log} semiring x "
                 "evidence spelling; non-trivial = at least one query instance and more than one world")
-    return cfgprop.run(ctx, MODULE, THEOREMS, variants, nq=50, nt=700, level="other",
+    return cfgprop.run(ctx, MODULE, THEOREMS, variants, nq=50, nt=700, level="other", gen=gen,
                        explanation="Option vectors are sampled; each run is compared with the Lean specification value.")
